@@ -190,6 +190,39 @@ def run(ctx):
                     rep.violation("ANN-2", b.key, "%s:%s" % (arm, lhs),
                                   "the %s update never writes %s (expected %s): a stale value stays in the data set and is "
                                   "announced" % (arm, lhs, table[lhs]), where=b.loc())
+            # must-pass-through: inside the body that decides on the RecommendedState variant, every returning path from the
+            # entry that is consistent with the arm's variant(s) (blocks where another variant is known are cut) passes a
+            # write of each prescribed field - a guard arm or early return in front of the update leaves the old data set in place
+            cc = cnd.conds(prog, b)
+            g = mir.cfg(b)
+            wantv = {"S1"} if arm == "S1" else {"M1", "M2"}
+
+            def _in_region(bi):
+                vs = None
+                for l in cc.must_literals(bi):
+                    if l[0] == "variant" and l[3] == "RecommendedState":
+                        vs = set(l[2]) if vs is None else vs & set(l[2])
+                return bool(vs) and vs <= wantv
+            region = {bi for bi in g.reach if bi < g.n and _in_region(bi)}
+
+            def _excluded(bi):       # the variant known at this block is none of the arm's
+                for l in cc.must_literals(bi):
+                    if l[0] == "variant" and l[3] == "RecommendedState" and not (set(l[2]) & wantv):
+                        return True
+                return False
+            if region:
+                off = frozenset(bi for bi in g.reach if bi < g.n and _excluded(bi))
+                for lhs in table:
+                    blocks = {s_["bb"] for (s_, _) in lst if norm_lhs(s_["lhs"]) == lhs}
+                    if not blocks:
+                        continue
+                    if g.EXIT in g.reachable_from(0, avoid=off | frozenset(blocks)):
+                        rep.violation("ANN-2", b.key, "%s:%s:every-path" % (arm, lhs),
+                                      "a path through the %s decision returns without writing %s (a guard or early exit in "
+                                      "front of the update): the data set keeps a stale value, which is then announced" % (
+                                          arm, lhs), where=b.loc())
+                    else:
+                        rep.ok("ANN-2", b.key, "%s:%s:every-path" % (arm, lhs), where=b.loc(), nontrivial=False)
             if arm == "M1M2":
                 if tp_const and all("<- " in x and not re.search(r"<- .*\b(self|default|config|initial)", x) for x in tp_const):
                     rep.violation("ANN-2", b.key, "M1M2:time_properties_ds",
